@@ -72,7 +72,10 @@ impl Worker {
 
                     println!("Worker {} got a job; executing.", id);
 
-                    job();
+                    let boxed_run = std::panic::catch_unwind(std::panic::AssertUnwindSafe(job));
+                    if boxed_run.is_err() {
+                        eprintln!("Worker {} -> job panicked, worker keeps running", id);
+                    }
                 }
 
             }
